@@ -670,8 +670,46 @@ def other_items():
     return n, bad
 
 
+HISTORY = []
+
+
+def pollute_history(n=1):
+    """C03 must hold whatever was extracted BEFORE: a handful of async generators are driven through asend() /
+    athrow() awaitables that get extracted and then freed, while the generators themselves stay alive, parked at a
+    yield, for the rest of the run (anything the library remembers about those short-lived awaitables -- by id, say --
+    is stale by the time the cases run; CPython recycles their addresses)."""
+    @types.coroutine
+    def trap():
+        yield "history-trap"
+
+    async def numbers(tag):
+        await trap()
+        yield tag
+        await trap()
+        yield tag + 1
+
+    async def pull(ag):
+        return await ag.asend(None)
+
+    for k in range(n):
+        ag = numbers(k)
+        co = pull(ag)
+        co.send(None)                       # suspended in ag's asend() awaitable, inside numbers at its first trap
+        stackscope.extract(co)
+        stackscope.extract_outermost(co)
+        try:
+            co.send(None)                   # numbers yields: the awaitable completes and is freed
+        except StopIteration:
+            pass
+        del co
+        HISTORY.append(ag)                  # ... but the generator lives on, parked at its yield
+    # (no gc.collect() here: a full collection empties the interpreter's free lists, and with them the address reuse)
+    del HISTORY[:-40]
+
+
 def main():
     data = json.load(open(sys.argv[1]))
+    pollute_history(3)
     rec = rec_m1.Recorder()
     rec.install()
     out = []
@@ -679,6 +717,9 @@ def main():
         warnings.simplefilter("ignore", RuntimeWarning)
         for idx, case in enumerate(data["cases"]):
             try:
+                pollute_history(1)          # right before every chain is built (see pollute_history)
+                rec.take()                  # the recordings of those extractions are not this chain's
+                rec.stack[:] = []
                 r = run_chain(case, rec)
             except BaseException as ex:
                 import traceback
